@@ -58,6 +58,7 @@ QUERIES = {
     "iter_mut__break": [("comp", "CompA")], "iter_mut__oneof": [("oneof", ["CompZ", "CompAl", "K3"])],
     "iter_mut__cfg": [("comp", "CompA"), ("comp", "CompBox")], "iter_mut__big": [("comp", "K0"), ("comp", "K15"), ("comp", "K7")],
     "iter_borrow__all": ALLK, "iter_borrow__typed": [("comp", "CompBox"), ("comp", "CompAl"), ("entity", "ArchThree")], "iter_borrow__break": [("comp", "CompA")],
+    "iter_mut__cfgstack": [("comp", "CompA")], "iter_borrow__cfg": [("comp", "CompA")], "iter_destroy__cfg": [("comp", "CompA")],
     "iter_destroy__all": ALLK, "iter_destroy__typed": [("comp", "CompBox"), ("entity", "ArchThree")], "iter_destroy__unit": [("comp", "CompA")], "iter_destroy__step": [("comp", "CompA")],
 }
 
@@ -89,6 +90,7 @@ def snake(s):
 # SP1: validated-by funnel (C01-R2, C09-R6, C17-R3)
 # ----------------------------------------------------------------------------------
 KEYTY = re.compile(r"\bentity::(Entity|EntityDirect|EntityAny|EntityDirectAny)\b")
+DIRECTTY = re.compile(r"\bentity::(EntityDirect|EntityDirectAny)\b")
 TRANSFORMS = ("Option::map", "Option::is_some", "Option::ok", "Result::ok", "Into<U>>::into", "Into::into", "Option::and_then", "Option::as_ref", "Option::as_mut")
 
 
@@ -157,6 +159,12 @@ class Validator:
             g = mono(self.ctx).lookup(e[8]) if e[8] and not e[8].get("indirect") else None
             if g is None or not self.key_params(g):
                 continue
+            # kind-faithful: a direct key is validated by a function that takes a direct key (in the end the direct resolver, which
+            # compares the archetype version); re-deriving an Entity from the dense index and validating *that* accepts stale direct keys
+            df = {bool(DIRECTTY.search(f.local_ty(i))) for i in kps}
+            dg = {bool(DIRECTTY.search(g.local_ty(i))) for i in self.key_params(g)}
+            if f.krate == "gecs" and df and dg and not (df & dg):
+                continue  # (only inside gecs: generated code dispatches over the total select enum, whose arms mix kinds)
             args = [N(a) for a in e[3]]
             linked = any(contains(a, lambda x: x[0] == "arg" and x[1] in kps) for a in args)
             if not linked:
@@ -244,8 +252,9 @@ def rule_funnel(ctx, R):
                 R.ok(rule, "funnel|%s" % name, "every accepting path of %s depends on a successful key resolution (resolver reached through %d validated functions)" % (name, len([1 for v in V.memo.values() if v])), fn=f.key)
             else:
                 R.fail(rule, ident, "entry %s: %s" % (name, site), where_of(f), fn=f.key)
-                if rule != "C01-R2" and "to_direct" not in name:
-                    pass
+            if kind in ("direct", "directany") and rule != "C09-R6":
+                # C09: every entry taking a direct key accepts it only on the strength of the direct resolver
+                R.check(ok, "C09-R6", "funnel-direct|%s" % name, "direct key validated by the direct resolver on every accepting path", "entry %s: %s" % (name, site), where_of(f), fn=f.key)
 
 
 # ----------------------------------------------------------------------------------
@@ -964,6 +973,7 @@ BORROW_QUERIES = {
     "iter_borrow__all": [("CompA", True)],
     "iter_borrow__typed": [("CompBox", False), ("CompAl", True)],
     "iter_borrow__break": [("CompA", False)],
+    "iter_borrow__cfg": [("CompA", False)],
     "find_borrow__entity": [("CompA", True), ("CompBox", False)],
     "find_borrow__direct": [("CompA", True), ("CompBox", False)],
     "find_borrow__any": [("CompA", True)],
